@@ -122,18 +122,30 @@ func checkC14(ctx *Ctx) *Result {
 				}
 			}
 		}
-		if pa.Start == "entry" {
-			for name, v := range pa.Next {
-				if v.IsConst("-1") && name != "rangeindex" {
-					posPhi = name
+	}
+	// the position of the last name seen: the loop-carried value handed (possibly
+	// shifted by a constant) to IndexAfter as its starting point
+	var posArg *Term
+	posOff := int64(0)
+	for _, pa := range paths {
+		if pa.Start != inner {
+			continue
+		}
+		for _, a := range pa.Atoms {
+			a.T.Mentions(func(s *Term) bool {
+				if s.Op == "call" && s.Name == "(util.SortedSet).IndexAfter" && len(s.Args) == 3 && s.Args[0].Key() == setP {
+					if b, off := affine(s.Args[1]); b.Op == "loopphi" && strings.HasSuffix(b.Name, "@"+inner) {
+						posPhi, posArg, posOff = strings.TrimSuffix(b.Name, "@"+inner), s.Args[1], off
+					}
 				}
-			}
+				return false
+			})
 		}
 	}
 	for _, pa := range paths {
 		if pa.Start == inner {
 			for name, v := range pa.Next {
-				if v.Op == "bin" && v.Name == "+" && v.Args[1].IsConst("1") && v.Args[0].Op == "loopphi" && name != "rangeindex" && name != posPhi {
+				if v.Op == "bin" && (v.Name == "+" && (v.Args[1].IsConst("1") || v.Args[1].IsConst("-1")) || v.Name == "-" && v.Args[1].IsConst("1")) && v.Args[0].Op == "loopphi" && v.Args[0].Name == name+"@"+inner && name != "rangeindex" && name != posPhi {
 					emptyPhi = name
 				}
 			}
@@ -146,42 +158,107 @@ func checkC14(ctx *Ctx) *Result {
 	L := "loopphi:" + linePhi + "@" + inner
 	POS := "loopphi:" + posPhi + "@" + inner
 	EMP := "loopphi:" + emptyPhi + "@" + inner
-	// window
-	var window *Term
+	// the empty-element counter counts up from 0 or down from the limit
+	empDown, empDownKey := false, ""
 	for _, pa := range paths {
+		if pa.Start == inner {
+			if v := pa.Next[emptyPhi]; v != nil && (v.Key() == "bin:+("+EMP+", -1)" || v.Key() == "bin:-("+EMP+", 1)") {
+				empDown, empDownKey = true, v.Key()
+			}
+		}
+	}
+	empStep, empInit := "bin:+("+EMP+", 1)", "0"
+	if empDown {
+		empStep, empInit = empDownKey, fmt.Sprint(empt)
+	}
+	// window: per path, the string searched for a comma must be
+	// line[:min(len(line), bound)] — written with min, or with a comparison of
+	// len(line) against the bound that the path has already decided
+	var maxLen *Term
+	goodW, detailW := true, ""
+	windowOf := func(pa *Path) *Term {
+		var window *Term
 		for _, a := range pa.Atoms {
 			a.T.Mentions(func(s *Term) bool {
-				if s.Op == "call" && s.Name == "strings.IndexByte" && len(s.Args) == 2 && s.Args[1].IsConst("44") {
+				if window == nil && s.Op == "call" && s.Name == "strings.IndexByte" && len(s.Args) == 2 && s.Args[1].IsConst("44") {
 					window = s.Args[0]
 				}
 				return false
 			})
 		}
+		return window
 	}
-	if window == nil {
-		r.fail("R14.2", "headers.Check: comma search", p.Pos(fn.Pos()), "no search for a comma (strings.IndexByte(…, ',')) in the element loop")
-		return r
-	}
-	// window = slice(L, _, int(min(uint(len(L)), maxLen)), _)
-	goodW, detailW := true, ""
-	var maxLen *Term
-	if window.Op != "slice" || window.Args[0].Key() != L || !window.Args[1].IsConst("_") {
-		goodW, detailW = false, "the comma is not searched in a leading window of the current line: "+window.Key()
-	} else {
-		hi := window.Args[2]
-		hi.Mentions(func(s *Term) bool {
-			if s.Op == "min" && len(s.Args) == 2 {
-				for i, a := range s.Args {
-					if strings.Contains(a.Key(), "len:builtin.len("+L+")") {
-						maxLen = s.Args[1-i]
+	lenL := "len:builtin.len(" + L + ")"
+	checkWindow := func(pa *Path, window *Term) {
+		var hi *Term
+		switch {
+		case window.Key() == L:
+		case window.Op == "slice" && window.Args[0].Key() == L && window.Args[1].IsConst("_"):
+			if !window.Args[2].IsConst("_") {
+				hi = stripConv(window.Args[2])
+			}
+		default:
+			goodW, detailW = false, "the comma is not searched in a leading window of the current line: "+window.Key()
+			return
+		}
+		var bound *Term
+		if hi != nil {
+			hi.Mentions(func(s *Term) bool {
+				if s.Op == "min" && len(s.Args) == 2 {
+					for i, a := range s.Args {
+						if stripConv(a).Key() == lenL {
+							bound = s.Args[1-i]
+						}
 					}
 				}
-			}
-			return false
-		})
-		if maxLen == nil {
-			goodW, detailW = false, "the window is not min(len(line), bound): "+hi.Key()
+				return false
+			})
 		}
+		if bound == nil {
+			// a comparison between len(line) and the bound decided on this path
+			whole := hi == nil || hi.Key() == lenL
+			for _, a := range pa.Atoms {
+				if a.T.Op != "bin" || a.T.Name != "<" || len(a.T.Args) != 2 {
+					continue
+				}
+				l, rr := stripConv(a.T.Args[0]), stripConv(a.T.Args[1])
+				var other *Term
+				lenLeq := false // the atom says len(line) ≤ other
+				switch {
+				case l.Key() == lenL:
+					other, lenLeq = a.T.Args[1], a.Pos
+				case rr.Key() == lenL:
+					other, lenLeq = a.T.Args[0], !a.Pos
+				default:
+					continue
+				}
+				if whole && lenLeq || !whole && !lenLeq && stripConv(other).Key() == hi.Key() {
+					bound = other
+				}
+			}
+		}
+		if bound == nil {
+			goodW, detailW = false, "the window is not line[:min(len(line), bound)] on path {"+checkShort(pa, L, "")+"}: "+window.Key()
+			return
+		}
+		if maxLen != nil && stripConv(maxLen).Key() != stripConv(bound).Key() {
+			goodW, detailW = false, "the window bound differs between paths: "+maxLen.Key()+" / "+bound.Key()
+		}
+		maxLen = bound
+	}
+	anyWindow := false
+	for _, pa := range paths {
+		if pa.Start != inner {
+			continue
+		}
+		if w := windowOf(pa); w != nil {
+			anyWindow = true
+			checkWindow(pa, w)
+		}
+	}
+	if !anyWindow {
+		r.fail("R14.2", "headers.Check: comma search", p.Pos(fn.Pos()), "no search for a comma (strings.IndexByte(…, ',')) in the element loop")
+		return r
 	}
 	if maxLen != nil {
 		c, vars, okLin := linearSum(maxLen)
@@ -194,16 +271,66 @@ func checkC14(ctx *Ctx) *Result {
 	}
 	r.check(goodW, "R14.3", "headers.Check: window = MaxLen(set) + c, c ≥ 2·MaxOWSBytes+1", p.Pos(fn.Pos()), detailW, 1)
 
-	comma := "call:strings.IndexByte(" + window.Key() + ", 44)"
-	found := "bin:<(" + comma + ", 0)" // positive = no comma in the window
-	cutYes := "slice(" + L + ", _, " + comma + ", _)"
-	after := "slice(" + L + ", bin:+(" + comma + ", 1), _, _)"
+	// an element loop written `for more := true; more; more = commaFound`: a
+	// boolean raised on entering the loop, tested first, whose next value
+	// decides between the next element and the next line
+	flagPhi := ""
+	for _, pa := range paths {
+		if pa.Start == outer && pa.End == inner {
+			for name, v := range pa.Next {
+				if v.IsConst("true") && name != linePhi && name != posPhi && name != emptyPhi {
+					flagPhi = name
+				}
+			}
+		}
+	}
 	nSteps := 0
 	for _, pa := range paths {
 		if pa.Start != inner {
 			continue
 		}
+		end := pa.End
+		if flagPhi != "" {
+			FLAG := "loopphi:" + flagPhi + "@" + inner
+			switch pa.Val(FLAG) {
+			case -1:
+				// the flag is down: the line is finished, nothing else happens
+				bad := ""
+				if pa.End != outer {
+					bad = "with the continuation flag down the element loop is not left for the next line"
+				}
+				for _, n := range []string{posPhi, emptyPhi} {
+					if v := pa.Next[n]; v != nil && v.Key() != "loopphi:"+n+"@"+inner {
+						bad = "leaving the element loop changes " + n
+					}
+				}
+				r.check(bad == "", "R14.2", "headers.Check: element loop left when its continuation flag is down", p.Pos(fn.Pos()), bad, 1)
+				continue
+			case 0:
+				r.fail("R14.2", "headers.Check element step {"+checkShort(pa, L, "")+"}", p.Pos(fn.Pos()), "the element loop's continuation flag is not tested first")
+				continue
+			}
+			if pa.End == inner {
+				switch v := pa.Next[flagPhi]; {
+				case v != nil && v.IsConst("false"):
+					end = outer
+				case v != nil && v.IsConst("true"):
+				default:
+					r.fail("R14.2", "headers.Check element step {"+checkShort(pa, L, "")+"}", p.Pos(fn.Pos()), "the element loop's continuation flag is not decided on this step")
+					continue
+				}
+			}
+		}
 		nSteps++
+		window := windowOf(pa)
+		if window == nil {
+			r.fail("R14.2", "headers.Check element step {"+checkShort(pa, L, "")+"}", p.Pos(fn.Pos()), "no search for a comma (strings.IndexByte(…, ',')) on this step")
+			continue
+		}
+		comma := "call:strings.IndexByte(" + window.Key() + ", 44)"
+		found := "bin:<(" + comma + ", 0)" // positive = no comma in the window
+		cutYes := "slice(" + L + ", _, " + comma + ", _)"
+		after := "slice(" + L + ", bin:+(" + comma + ", 1), _, _)"
 		desc := "headers.Check element step {" + checkShort(pa, L, comma) + "}"
 		good, detail := true, ""
 		noComma := pa.Val(found)
@@ -213,9 +340,9 @@ func checkC14(ctx *Ctx) *Result {
 		}
 		trim := "call:headers.TrimOWS(" + cut + ", " + fmt.Sprint(ows) + ")"
 		name := trim + "#0"
-		lookup := "call:(util.SortedSet).IndexAfter(" + setP + ", " + POS + ", " + name + ")"
+		lookup := "call:(util.SortedSet).IndexAfter(" + setP + ", " + posArg.Key() + ", " + name + ")"
 		isRetFalse := pa.End == "return" && len(pa.Rets) == 1 && pa.Rets[0].IsConst("false")
-		goesOn := pa.End == inner || pa.End == outer
+		goesOn := end == inner || end == outer
 		switch {
 		case noComma == 0:
 			good, detail = false, "the step does not depend on whether a comma was found in the window"
@@ -226,7 +353,15 @@ func checkC14(ctx *Ctx) *Result {
 				good, detail = false, "an element with too much optional whitespace is not rejected"
 			}
 		case pa.Val("bin:==("+name+", \"\")") == 1:
+			// the limit is reached: counting up, count+1 > limit; counting
+			// down from the limit, nothing left
 			over := pa.Val("bin:<(" + fmt.Sprint(empt) + ", bin:+(" + EMP + ", 1))")
+			if empDown {
+				over = pa.Val("bin:==(" + EMP + ", 0)")
+				if over == 0 {
+					over = pa.Val("bin:<(" + EMP + ", 1)")
+				}
+			}
 			switch {
 			case over == 0:
 				good, detail = false, "an empty element is not counted against MaxEmptyElements"
@@ -235,8 +370,8 @@ func checkC14(ctx *Ctx) *Result {
 			case over == -1:
 				if !goesOn {
 					good, detail = false, "a tolerated empty element ends the scan"
-				} else if pa.Next[emptyPhi] == nil || pa.Next[emptyPhi].Key() != "bin:+("+EMP+", 1)" {
-					good, detail = false, "the empty-element counter is not incremented"
+				} else if pa.Next[emptyPhi] == nil || pa.Next[emptyPhi].Key() != empStep {
+					good, detail = false, "the empty-element counter is not stepped by one"
 				} else if pa.Next[posPhi] != nil && pa.Next[posPhi].Key() != POS {
 					good, detail = false, "an empty element changes the position of the last name seen"
 				}
@@ -251,7 +386,7 @@ func checkC14(ctx *Ctx) *Result {
 			case neg == -1:
 				if !goesOn {
 					good, detail = false, "an accepted element ends the scan with "+fmt.Sprint(pa.Rets)
-				} else if pa.Next[posPhi] == nil || pa.Next[posPhi].Key() != lookup {
+				} else if !affineIs(pa.Next[posPhi], lookup, -posOff) {
 					got := "<unchanged>"
 					if pa.Next[posPhi] != nil {
 						got = pa.Next[posPhi].Key()
@@ -267,10 +402,10 @@ func checkC14(ctx *Ctx) *Result {
 		if good && goesOn {
 			// where the scan resumes
 			if noComma == -1 {
-				if pa.End != inner || pa.Next[linePhi] == nil || pa.Next[linePhi].Key() != after {
+				if end != inner || pa.Next[linePhi] == nil || pa.Next[linePhi].Key() != after {
 					good, detail = false, "after a comma the scan does not resume right behind it within the same line"
 				}
-			} else if pa.End != outer {
+			} else if end != outer {
 				good, detail = false, "without a comma in the window the line is not finished"
 			}
 		}
@@ -284,11 +419,58 @@ func checkC14(ctx *Ctx) *Result {
 	}
 	// outer loop: true only when lines are exhausted; inner loop starts at the line itself
 	badOuter := ""
+	// the line loop's guard `index < len(lines)` and its index: a range loop, or
+	// an index loop that starts at 0 and is stepped by one per line
+	lineGuard, lineIdx := "", ""
+	for _, pa := range paths {
+		if pa.Start != outer || pa.End != inner {
+			continue
+		}
+		v := pa.Next[linePhi]
+		if v == nil || v.Op != "load" || v.Args[0].Op != "iaddr" || len(v.Args[0].Args) < 2 {
+			continue
+		}
+		idx := v.Args[0].Args[1]
+		g := "bin:<(" + idx.Key() + ", len:builtin.len(" + linesP + "))"
+		if pa.Val(g) == 1 {
+			lineGuard, lineIdx = g, idx.Key()
+		}
+	}
+	switch {
+	case lineGuard == "":
+		badOuter = "the line loop does not read lines[index] under index < len(lines)"
+	case lineIdx == "bin:+(loopphi:rangeindex@"+outer+", 1)":
+	default:
+		// index loop
+		name := strings.TrimSuffix(strings.TrimPrefix(lineIdx, "loopphi:"), "@"+outer)
+		if !strings.HasPrefix(lineIdx, "loopphi:") || !strings.HasSuffix(lineIdx, "@"+outer) {
+			badOuter = "the line loop's index is not a loop counter: " + lineIdx
+			break
+		}
+		for _, pa := range paths {
+			v := pa.Next[name]
+			switch {
+			case pa.End == "return":
+			case pa.Start == "entry":
+				if v == nil || !v.IsConst("0") {
+					badOuter = "the line loop's index does not start at 0"
+				}
+			case pa.End == outer:
+				if !affineIs(v, lineIdx, 1) {
+					badOuter = "the line loop's index is not stepped by one per line"
+				}
+			default:
+				if v != nil && v.Key() != "loopphi:"+name+"@"+pa.Start && v.Key() != lineIdx {
+					badOuter = "the line loop's index is modified within a line"
+				}
+			}
+		}
+	}
 	for _, pa := range paths {
 		if pa.Start != outer {
 			continue
 		}
-		guard := "bin:<(bin:+(loopphi:rangeindex@" + outer + ", 1), len:builtin.len(" + linesP + "))"
+		guard := lineGuard
 		if pa.End == "return" {
 			if len(pa.Rets) != 1 || !pa.Rets[0].IsConst("true") || pa.Val(guard) != -1 {
 				badOuter = "the line loop returns something other than `true` at exhaustion"
@@ -307,8 +489,11 @@ func checkC14(ctx *Ctx) *Result {
 	}
 	for _, pa := range paths {
 		if pa.Start == "entry" && pa.End != "return" {
-			if v := pa.Next[emptyPhi]; v != nil && !v.IsConst("0") {
-				badOuter = "the empty-element counter does not start at 0: " + v.Key()
+			if v := pa.Next[posPhi]; v == nil || !v.IsConst(fmt.Sprint(-1-posOff)) {
+				badOuter = fmt.Sprintf("the position of the last name seen does not start before the first name (IndexAfter would not start at -1): %v", v)
+			}
+			if v := pa.Next[emptyPhi]; v != nil && !v.IsConst(empInit) {
+				badOuter = "the empty-element counter does not start at " + empInit + ": " + v.Key()
 			}
 		}
 	}
@@ -366,7 +551,59 @@ func checkC14(ctx *Ctx) *Result {
 	r.rule("R1.10", "binary-searched slices (here: SortedSet.elems) are sorted whenever they are written", 1)
 	sortedDiscipline(ctx, r, "R1.10")
 	owsTrimmers(ctx, r)
+	// "allowed names", "byte-lower-case": what the set holds
+	r.rule("R14.6", "the set Check consults holds the configured names byte-lowercased: util.ByteLowercase is strings.ToLower, and the RequestHeaders validator records ByteLowercase(name) for every accepted name (decision table)", 2)
+	if _, err := p.caseFolders(); err != nil {
+		r.fail("R14.6", "util.ByteLowercase / ByteUppercase", "", err.Error())
+	} else {
+		r.ok("R14.6", "util.ByteLowercase = strings.ToLower, util.ByteUppercase = strings.ToUpper", 2, "")
+	}
+	if vf := ctx.ValidationFacts(); len(vf.Problems) > 0 {
+		r.undecided("R14.6", "validation-path", strings.Join(vf.Problems, "; "))
+	} else {
+		sub := &Validation{Lists: map[string]*ValidatorTable{}}
+		if t := ctx.Validation().Lists["RequestHeaders"]; t != nil {
+			sub.Lists["RequestHeaders"] = t
+		}
+		reportMismatches(r, "R14.6", sub, vf, func(m mismatch) bool {
+			return m.Kind == "missing-effect" || m.Kind == "extra-effect" || m.Kind == "flag"
+		}, "a configured header name is not recorded the way Check looks it up")
+	}
 	return r
+}
+
+// affine splits t into base + constant.
+func affine(t *Term) (*Term, int64) {
+	off := int64(0)
+	for t != nil && t.Op == "bin" && len(t.Args) == 2 && (t.Name == "+" || t.Name == "-") && t.Args[1].Op == "const" {
+		c, err := strconv.ParseInt(t.Args[1].Name, 10, 64)
+		if err != nil {
+			break
+		}
+		if t.Name == "-" {
+			c = -c
+		}
+		off += c
+		t = t.Args[0]
+	}
+	return t, off
+}
+
+// affineIs: t is the term with key base, plus off.
+func affineIs(t *Term, base string, off int64) bool {
+	if t == nil {
+		return false
+	}
+	b, o := affine(t)
+	return b.Key() == base && o == off
+}
+
+// stripConv removes integer conversions around a term.
+func stripConv(t *Term) *Term {
+	for t != nil && t.Op == "conv" && len(t.Args) == 1 && (t.Name == "int" || t.Name == "uint") {
+		t = t.Args[0]
+	}
+	return t
 }
 
 func maxLenKey(t *Term) string {
